@@ -20,6 +20,13 @@ Init == \/ kind = "usize" /\ c \in {[v |-> b] : b \in {x \in Boundary : LessN(x,
         \* proof contexts up to the largest LDE domain the constructor admits (2^31), with every blowup factor
         \/ kind = "context" /\ \E ln \in {3, 10} \cup 23..30, lb \in 1..7, fld \in {62, 64, 128}, aux \in {0, 3} :
                ContextAccepted(ln, lb) /\ (ln + lb >= 30 \/ ln = 3) /\ c = [ln |-> ln, lb |-> lb, field |-> fld, aux |-> aux]
+        \* out-of-domain frames: main / auxiliary widths, Lagrange kernel frames of log2(n) + 1 evaluations for every trace length the
+        \* option space allows, composition column counts; with 8..48-byte elements the three sections cross 255 / 256 bytes and,
+        \* for wide traces, come close to their 16-bit length prefixes
+        \/ kind = "oodframe" /\ \E main \in {1, 2, 100, 255}, aux \in {0, 1, 3}, lag \in {0, 4, 8, 9, 11, 16, 21, 32}, cc \in {1, 2, 8, 255}, fld \in {62, 64, 128}, ext \in 1..3 :
+               /\ (lag > 0 => aux > 0) /\ ~(fld = 128 /\ ext = 3) /\ ~(fld = 62 /\ ext = 3 /\ main = 100)
+               /\ (main + aux) * 2 * ext * (fld \div 8 + (IF fld = 62 THEN 1 ELSE 0)) < 65535
+               /\ c = [main |-> main, aux |-> aux, lag |-> lag, ccols |-> cc, field |-> fld, ext |-> ext]
 Next == UNCHANGED vars
 
 RoundTripInv == kind = "usize" => UsizeRoundTrip(c.v) /\ Len(EncUsize(c.v)) \in 1..9
@@ -28,5 +35,6 @@ Emit == CASE kind = "usize" -> PrintT(ToJson([kind |-> kind, v |-> ToBytes(c.v, 
           [] kind = "traceinfo" -> PrintT(ToJson([kind |-> kind, d |-> c,
                                                   enc |-> EncTraceInfo(c.main, c.aux, c.rands, c.ln, [i \in 1..c.metalen |-> i % 251])]))
           [] kind = "context" -> PrintT(ToJson([kind |-> kind, d |-> c]))
+          [] kind = "oodframe" -> PrintT(ToJson([kind |-> kind, d |-> c]))
           [] kind = "options" -> PrintT(ToJson([kind |-> kind, d |-> c, enc |-> EncOptions(c.q, c.blowup, c.grind, c.ext, c.fold, c.rem)]))
 =============================================================================
